@@ -45,7 +45,7 @@ func has(flags []string, f string) bool {
 }
 
 func checkC10(c *Ctx) error {
-	c.Rule = "fault classes x flag combinations x pre-states of the -o path, every run observed by the CLI-contract monitor (exit status in {0,1}; report steps/END marks/numbered list consistent; list length = failing step's count; stat+sha256 of -o before/after; on exit 0 the file is byte-identical to a clean run into a fresh directory; --quiet prints nothing and has the same exit status and file effect). Fault classes: input is a directory, dangling symlink, unparsable YAML, well-formed YAML of the wrong shape (one / many mismatches, one / two files), duplicate keys, unknown fields, several documents, bad anchors, file matched by two patterns, empty glob, invalid glob, grammar error, token error, cycle, scope conflict, missing parameter, missing service, formatting error (keyword package name), missing output directory, output path is a directory, plus valid/empty inputs. Thorough adds system-call fault injection with strace (n-th openat/read on inputs, openat/write on -o failing with EACCES/EIO/EMFILE/EROFS/ENOSPC). distinct = distinct (fault class, flags, pre-state, config); non-trivial = the run involves a fault or a pre-existing -o"
+	c.Rule = "fault classes x flag combinations x pre-states of the -o path, every run observed by the CLI-contract monitor (exit status in {0,1}; report steps/END marks/numbered list consistent; list length = failing step's count; stat+sha256 of -o before/after; on exit 0 the file is byte-identical to a clean run into a fresh directory; --quiet prints nothing and has the same exit status and file effect). Fault classes: input is a directory, a wildcard matching a file next to a directory / dangling link / link to a directory, dangling symlink, unparsable YAML, well-formed YAML of the wrong shape (one / many mismatches, one / two files), duplicate keys, unknown fields, several documents, bad anchors, file matched by two patterns, empty glob, invalid glob, grammar error, token error, cycle, scope conflict, missing parameter, missing service, formatting error (keyword package name), missing output directory, output path is a directory, plus valid/empty inputs. Thorough adds system-call fault injection with strace (n-th openat/read on inputs, openat/write on -o failing with EACCES/EIO/EMFILE/EROFS/ENOSPC). distinct = distinct (fault class, flags, pre-state, config); non-trivial = the run involves a fault or a pre-existing -o"
 	c.Assumptions = []string{"the process boundary (exit code, stdout, stderr, file system) is what users observe", "flag-parsing failures (missing -i/-o) are outside the statement ('given its required flags')", "strace injection replaces the system call's result without executing it"}
 	w := c.W
 	r := rand.New(rand.NewSource(c.Seed))
@@ -83,6 +83,29 @@ func checkC10(c *Ctx) error {
 		{name: "input-dangling-symlink", prepare: func(d string) []string {
 			_ = os.Symlink(filepath.Join(d, "gone.yaml"), filepath.Join(d, "link.yaml"))
 			return []string{"link.yaml"}
+		}, expectOK: always(false)},
+		// a wildcard that matches a readable file AND something that is not one: the unreadable match is still an input
+		{name: "glob-matches-file-and-directory", prepare: func(d string) []string {
+			write(filepath.Join(d, "conf/a.yaml"), valid())
+			_ = os.MkdirAll(filepath.Join(d, "conf/dev"), 0o755)
+			write(filepath.Join(d, "conf/dev/inner.yaml"), "parameters: {inner: 1}\n")
+			return []string{[]string{"conf/*", "conf/?*", "c*/*"}[r.Intn(3)]}
+		}, expectOK: always(false)},
+		{name: "glob-matches-file-and-dangling-link", prepare: func(d string) []string {
+			write(filepath.Join(d, "conf/a.yaml"), valid())
+			_ = os.Symlink(filepath.Join(d, "conf/gone"), filepath.Join(d, "conf/b.yaml"))
+			return []string{"conf/*.yaml"}
+		}, expectOK: always(false)},
+		{name: "glob-matches-file-and-link-to-directory", prepare: func(d string) []string {
+			write(filepath.Join(d, "conf/a.yaml"), valid())
+			_ = os.MkdirAll(filepath.Join(d, "elsewhere"), 0o755)
+			_ = os.Symlink(filepath.Join(d, "elsewhere"), filepath.Join(d, "conf/z.yaml"))
+			return []string{"conf/*.yaml"}
+		}, expectOK: always(false)},
+		{name: "glob-matches-directories-only", prepare: func(d string) []string {
+			_ = os.MkdirAll(filepath.Join(d, "conf/dev"), 0o755)
+			_ = os.MkdirAll(filepath.Join(d, "conf/prod"), 0o755)
+			return []string{"conf/*"}
 		}, expectOK: always(false)},
 		{name: "input-missing", prepare: func(d string) []string { return []string{"missing.yaml"} }, expectOK: always(false)},
 		{name: "unparsable-yaml", prepare: func(d string) []string {
